@@ -2,6 +2,7 @@
 
 import inspect
 import re
+from collections import OrderedDict
 from contextlib import suppress
 from typing import Any, Callable, Dict, Optional, Set, Tuple, Type
 
@@ -114,6 +115,7 @@ def get_yaml_default_dumper():
     for first_letter, mappings in get_yaml_default_loader().yaml_implicit_resolvers.items():
         resolvers.setdefault(first_letter, []).extend((t, r) for t, r in mappings if t == float_tag)
     DefaultDumper.yaml_implicit_resolvers = resolvers
+    DefaultDumper.add_representer(OrderedDict, lambda dumper, data: dumper.represent_dict(data.items()))
 
     yaml_default_dumper = DefaultDumper
     return yaml_default_dumper
